@@ -78,11 +78,13 @@ void h_slice_import(void) {
 }
 
 /* ldb_slice_decode (slice.h): prefix known to be well formed (memtable entries) */
+#ifndef VERIF_NATIVE
 ldb_slice_t c_slice_decode(const uint8_t *xp)
 __CPROVER_requires(__CPROVER_r_ok(xp, 1) && ((xp[0] & 128) == 0 || (__CPROVER_r_ok(xp, 2) && ((xp[1] & 128) == 0 || (__CPROVER_r_ok(xp, 3) && ((xp[2] & 128) == 0 || (__CPROVER_r_ok(xp, 4) && ((xp[3] & 128) == 0 || (__CPROVER_r_ok(xp, 5) && (xp[4] & 128) == 0)))))))))
 __CPROVER_assigns()
 __CPROVER_ensures(__CPROVER_return_value.data == xp + LPS_K(xp, 5) && __CPROVER_return_value.size == LPS_LEN(xp, 5) && __CPROVER_return_value.alloc == 0)
 ;
+#endif
 void h_slice_decode(void) {
   IN_SIZE(in_n); IN_BUF(buf, in_n); SNAP_BUF(buf, in_n);
   ldb_slice_t z;
